@@ -94,3 +94,38 @@ for _tag, _units, _want in (("per_person", "$/person (one-off)", True), ("per_pe
     CONTRACTS["programs:Program.is_one_off#%s" % _tag] = dict(
         schema=schema, make_env=_env_one_off(_units),
         ensures=[("C11.a_unit_cost_per_person_is_one_off_and_per_person_per_year_is_continuous", "result == %r" % _want)], defined_props=["C11", "C13"])
+
+
+# ---- ProgramInstructions.scale_alloc (C11 / C14: budget scenarios and budget factors scale the whole allocation): a NEW set of instructions in which every spending
+# series -- values, assumption and uncertainty -- is the original times the factor; the instructions it is called on are left as they were
+def _copy(v):
+    from pyvc.interp import PyObjV
+
+    if isinstance(v, PyObjV):
+        return PyObjV(v.cls, v.module, {k: _copy(x) for k, x in v.fields.items()})
+    if isinstance(v, dict):
+        return {k: _copy(x) for k, x in v.items()}
+    if isinstance(v, list):
+        return [_copy(x) for x in v]
+    return v
+
+
+def _env_scale(it):
+    from pyvc.interp import PyObjV
+    from pyvc import source
+
+    um = source.load("utils")
+    a0, a1, b0, asm, sg, k = z3.Real("a0"), z3.Real("a1"), z3.Real("b0"), z3.Real("assumption"), z3.Real("sigma"), it.pre_env["scale_factor"]
+    A = PyObjV("TimeSeries", um, {"t": [2020.0, 2025.0], "vals": [a0, a1], "units": "$", "assumption": None, "sigma": sg, "_sampled": False})
+    B = PyObjV("TimeSeries", um, {"t": [2020.0], "vals": [b0], "units": "$", "assumption": asm, "sigma": None, "_sampled": False})
+    self = PyObjV("ProgramInstructions", source.load("programs"), {"start_year": 2020.0, "stop_year": 2030.0, "alloc": {"a": A, "b": B}, "capacity": {}, "coverage": {}})
+    return {"self": self, "a0": a0, "a1": a1, "b0": b0, "asm": asm, "sg": sg, "A": A, "B": B}
+
+
+CONTRACTS["programs:ProgramInstructions.scale_alloc"] = dict(
+    schema=schema, ghost_params={"scale_factor": "real"}, make_env=_env_scale, requires=["scale_factor >= 0"], call_stubs={"sc.dcp": (lambda it, x: _copy(x))},
+    ensures=[("C11+C14.every_spending_value_is_scaled_by_the_factor", "result.alloc['a'].vals[0] == a0 * scale_factor and result.alloc['a'].vals[1] == a1 * scale_factor and result.alloc['b'].vals[0] == b0 * scale_factor and len(result.alloc) == 2"),
+             ("C11+C14.assumption_and_uncertainty_are_scaled_too_and_absent_ones_stay_absent", "result.alloc['b'].assumption == asm * scale_factor and result.alloc['a'].sigma == sg * scale_factor and result.alloc['a'].assumption is None and result.alloc['b'].sigma is None"),
+             ("C11+C14.years_and_period_are_kept", "result.alloc['a'].t == [2020.0, 2025.0] and result.start_year == 2020.0 and result.stop_year == 2030.0"),
+             ("C11+C14+C08.the_instructions_it_is_called_on_are_unchanged", "result is not self and self.alloc['a'] is A and self.alloc['b'] is B and A.vals[0] == a0 and A.vals[1] == a1 and B.vals[0] == b0 and B.assumption == asm and A.sigma == sg")],
+    defined_props=["C11", "C14"])
